@@ -5,8 +5,12 @@
 // Vectors (from TLC, from replay files and from the random driver alike):
 //
 //	{"t":"dict","n":8,"cells":[{b,x,r}..],"roots":[0],"keys":["0101..",..],"exp":[{found,v}..]?,"modes":[..]?}
-//	{"t":"walk","cells":[..],"roots":[0],"script":[{"k":"Cursor","c":1},{"k":"Ref","c":1,"i":0},{"k":"Up","c":1},
-//	   {"k":"Prune","c":1},{"k":"Create","c":1},{"k":"Cursor","c":2},..],"exphash":[hex per Create]?,"modes":[..]?}
+//	{"t":"walk","cells":[..],"roots":[0],"script":[{"k":"Cursor","c":1},{"k":"Ref","c":1,"h":0,"nh":1,"i":0},
+//	   {"k":"Prune","c":1,"h":1},{"k":"Create","c":1,"h":0},{"k":"Cursor","c":2},..],"exphash":[hex per Create]?,"modes":[..]?}
+//
+// "preread" (any vector): what is done to the cells BEFORE NewMerkleProver: "" nothing; "readall" every cell is partly
+// read (bits and references) and nothing is reset; "prove-before" (dictionaries) another prover proves the keys first.
+// The cells' read positions are no part of the tree: the specification judges as if nothing had been read.
 //
 // Every vector is executed on ONE MerkleProver per build mode: all keys of a dictionary vector are asked from the same
 // prover in the given order, all cursor sessions of a script are opened on the same prover (sessions may interleave).
@@ -40,12 +44,19 @@ import (
 	"verifharness/internal/ev"
 )
 
-// Step is one call of a cursor script: Cursor (open session C on the prover), Ref I / Up / Prune (on session C),
-// Create (CreateProof with the current cursor of session C).
+// Step is one call of a cursor script. Cursor values are first-class: every value a call returns gets a handle and stays
+// alive (the replayer keeps the *boc.Cursor object), so a script can take several children of a node first and use the
+// earlier ones later.
+//
+//	Cursor: handle 0 of session C := prover.Cursor()
+//	Ref:    handle NH := (handle H).Ref(I)          Prune: (handle H).Prune()
+//	Create: prover.CreateProof(handle H)
 type Step struct {
-	K string `json:"k"`
-	C int    `json:"c"`
-	I int    `json:"i"`
+	K  string `json:"k"`
+	C  int    `json:"c"`
+	H  int    `json:"h"`
+	NH int    `json:"nh"`
+	I  int    `json:"i"`
 }
 
 type Exp struct {
@@ -70,6 +81,8 @@ type Vector struct {
 	// the tree under that proof (its Merkle-proof root's only child): a partial view with pruned branches. Cells is ignored.
 	Orig   []cells.C `json:"orig"`
 	SrcBoc string    `json:"srcboc"`
+	// Preread: see the package comment
+	Preread string `json:"preread"`
 }
 
 var DictModes = []string{"tree", "dag", "boc"}
@@ -135,16 +148,73 @@ var emptyTable = ev.M{"cells": []int{}, "roots": []int{}}
 
 // twoStep is what a Reset line says about a source that is the tree under an earlier proof.
 type twoStep struct {
-	orig   []cells.C
-	srcBoc string
+	orig    []cells.C
+	srcBoc  string
+	preread string
+}
+
+// readAll advances the read cursors of every cell of the DAG (about half of the bits, the first reference) and resets nothing.
+func readAll(root *boc.Cell) {
+	var all []*boc.Cell
+	seen := map[*boc.Cell]bool{}
+	var rec func(c *boc.Cell)
+	rec = func(c *boc.Cell) {
+		if seen[c] {
+			return
+		}
+		seen[c] = true
+		all = append(all, c)
+		for _, r := range c.Refs() {
+			rec(r)
+		}
+	}
+	rec(root)
+	for _, c := range all { // NextRef resets the counters of the child it returns: references first, bits afterwards
+		c.ResetCounters()
+		if len(c.Refs()) > 0 {
+			_, _ = c.NextRef()
+		}
+	}
+	for _, c := range all {
+		if n := c.BitsAvailableForRead(); n > 0 {
+			_, _ = c.ReadBits((n + 1) / 2)
+		}
+	}
+}
+
+// preread applies a vector's "preread" to the cells before the prover is built.
+func preread(root *boc.Cell, kind string, n int, keys []string) {
+	switch kind {
+	case "readall":
+		readAll(root)
+	case "prove-before":
+		_, _ = safely(func() error {
+			prover, err := boc.NewMerkleProver(root)
+			if err != nil {
+				return err
+			}
+			for _, k := range keys {
+				kb := boc.NewBitString(len(k))
+				for _, ch := range k {
+					_ = kb.WriteBit(ch == '1')
+				}
+				root.ResetCounters()
+				_, _, _ = tlb.ProveKeyInHashmap[tlb.Any](prover, root, kb)
+			}
+			return nil
+		})
+	}
 }
 
 func reset(w *ev.Writer, root *boc.Cell, kind, src, mode string, vec, n int, ts *twoStep) {
 	t := cells.Project([]*boc.Cell{root})
 	m := ev.M{"k": "Reset", "kind": kind, "src": src, "mode": mode, "vec": vec, "n": n, "cells": t.Cells, "roots": t.Roots}
-	if ts != nil {
+	if ts != nil && ts.srcBoc != "" {
 		m["orig"] = ev.M{"cells": ts.orig, "roots": []int{0}}
 		m["srcboc"] = ts.srcBoc
+	}
+	if ts != nil && ts.preread != "" {
+		m["preread"] = ts.preread
 	}
 	w.Emit(m)
 }
@@ -225,26 +295,26 @@ func runScript(w *ev.Writer, root *boc.Cell, script []Step, expHash []string, sr
 		w.Emit(ev.M{"k": "Panic", "op": "NewMerkleProver", "panic": p, "msg": fmt.Sprint(err)})
 		return
 	}
-	sessions := map[int][]*boc.Cursor{}
+	sessions := map[int]map[int]*boc.Cursor{}
 	creates := 0
 	for _, st := range script {
 		m := ev.M{"k": st.K, "c": st.C}
 		var proof []byte
 		p, err := safely(func() error {
-			stack := sessions[st.C]
+			cur := sessions[st.C]
 			switch st.K {
 			case "Cursor":
-				sessions[st.C] = []*boc.Cursor{prover.Cursor()}
+				sessions[st.C] = map[int]*boc.Cursor{0: prover.Cursor()}
 			case "Ref":
-				m["i"] = st.I
-				sessions[st.C] = append(stack, stack[len(stack)-1].Ref(st.I))
-			case "Up":
-				sessions[st.C] = stack[:len(stack)-1]
+				m["h"], m["nh"], m["i"] = st.H, st.NH, st.I
+				cur[st.NH] = cur[st.H].Ref(st.I)
 			case "Prune":
-				stack[len(stack)-1].Prune()
+				m["h"] = st.H
+				cur[st.H].Prune()
 			case "Create":
+				m["h"] = st.H
 				var e error
-				proof, e = prover.CreateProof(stack[len(stack)-1])
+				proof, e = prover.CreateProof(cur[st.H])
 				return e
 			default:
 				panic("c18: unknown step " + st.K)
@@ -283,7 +353,8 @@ func run(w *ev.Writer, v *Vector) error {
 				v.Orig[i].R = []int{}
 			}
 		}
-		ts := &twoStep{orig: v.Orig, srcBoc: v.SrcBoc}
+		ts := &twoStep{orig: v.Orig, srcBoc: v.SrcBoc, preread: v.Preread}
+		preread(root, v.Preread, v.N, v.Keys)
 		switch v.T {
 		case "dict":
 			proveKeys(w, root, v.N, v.Keys, v.Src, "proof", v.Vec, v.Exp, ts)
@@ -312,11 +383,16 @@ func run(w *ev.Writer, v *Vector) error {
 		if err != nil {
 			return fmt.Errorf("vector %d: cannot build input (%s): %v", v.Vec, mode, err)
 		}
+		var ts *twoStep
+		if v.Preread != "" {
+			ts = &twoStep{preread: v.Preread}
+			preread(root, v.Preread, v.N, v.Keys)
+		}
 		switch v.T {
 		case "dict":
-			proveKeys(w, root, v.N, v.Keys, v.Src, mode, v.Vec, v.Exp, nil)
+			proveKeys(w, root, v.N, v.Keys, v.Src, mode, v.Vec, v.Exp, ts)
 		case "walk":
-			runScript(w, root, v.Script, v.ExpHash, v.Src, mode, v.Vec, nil)
+			runScript(w, root, v.Script, v.ExpHash, v.Src, mode, v.Vec, ts)
 		default:
 			return fmt.Errorf("vector %d: unknown kind %q", v.Vec, v.T)
 		}
@@ -538,14 +614,18 @@ func keepPaths(t *cells.Table, meta []rowMeta, keep map[string]bool) [][]int {
 // pruneScript is one cursor session that prunes the given positions.
 func pruneScript(paths [][]int) []Step {
 	out := []Step{{K: "Cursor", C: 1}}
+	handle := map[string]int{"": 0} // every position is derived once; its cursor value is kept and used again
 	for _, p := range paths {
+		key := ""
 		for _, i := range p {
-			out = append(out, Step{K: "Ref", C: 1, I: i})
+			next := key + fmt.Sprint(i) + "/"
+			if _, ok := handle[next]; !ok {
+				handle[next] = len(handle)
+				out = append(out, Step{K: "Ref", C: 1, H: handle[key], NH: handle[next], I: i})
+			}
+			key = next
 		}
-		out = append(out, Step{K: "Prune", C: 1})
-		for range p {
-			out = append(out, Step{K: "Up", C: 1})
-		}
+		out = append(out, Step{K: "Prune", C: 1, H: handle[key]})
 	}
 	return append(out, Step{K: "Create", C: 1})
 }
@@ -800,7 +880,14 @@ func Drive(w *ev.Writer, o Opts) {
 				continue
 			}
 			root := hm.Refs()[0]
-			proofs := proveKeys(w, root, n, keys, src+":lib", "lib", vec, nil, nil)
+			var pre *twoStep
+			if d%2 == 0 {
+				// the dictionary is decoded first (as an application does to learn the keys): every cell has been read
+				if _, e := safely(func() error { _, e := dd.Dec(hm); return e }); e == nil {
+					pre = &twoStep{preread: "decode"}
+				}
+			}
+			proofs := proveKeys(w, root, n, keys, src+":lib", "lib", vec, nil, pre)
 			if back, e := viaBoc(root); e == nil {
 				proveKeys(w, back, n, keys, src+":lib", "boc", vec, nil, nil)
 			}
@@ -833,7 +920,7 @@ func Drive(w *ev.Writer, o Opts) {
 				keys = append(keys[:4], keys[len(keys)-np-na:]...)
 			}
 		}
-		v := &Vector{T: "dict", Vec: vec, Src: src, N: n, Cells: tab.Cells, Roots: tab.Roots, Keys: keys}
+		v := &Vector{T: "dict", Vec: vec, Src: src, N: n, Cells: tab.Cells, Roots: tab.Roots, Keys: keys, Preread: []string{"", "readall", "prove-before"}[d%3]}
 		if err := run(w, v); err != nil {
 			panic(err)
 		}
@@ -856,7 +943,7 @@ func Drive(w *ev.Writer, o Opts) {
 			first := runScript(w, root, pruneScript(keepPaths(tab, meta, keep)), nil, src+":keep-keys", "tree", vec, nil)
 			if len(first) == 1 && first[0] != "" {
 				vec++
-				v2 := &Vector{T: "dict", Vec: vec, Src: src + ":two-step", N: n, Orig: tab.Cells, SrcBoc: first[0], Keys: append(append([]string{}, keepList...), keys...)}
+				v2 := &Vector{T: "dict", Vec: vec, Src: src + ":two-step", N: n, Orig: tab.Cells, SrcBoc: first[0], Keys: append(append([]string{}, keepList...), keys...), Preread: []string{"prove-before", "", "readall"}[d%3]}
 				if err := run(w, v2); err != nil {
 					panic(err)
 				}
@@ -892,34 +979,37 @@ func Drive(w *ev.Writer, o Opts) {
 		}
 		// one prover serves several cursor sessions: sequential ones, sometimes two interleaved; one session that prunes
 		// nothing always comes after a session that pruned
+		// a session keeps every cursor value it obtained (handle -> table row) and uses any of them later: mostly the newest
+		// (a walk), often an older one (held values), sometimes all children of a node are taken first
 		sessionOn := func(tab *cells.Table, c int, empty bool) []Step {
 			out := []Step{{K: "Cursor", C: c}}
+			rows := []int{tab.Roots[0]}
 			if !empty {
-				path := []int{tab.Roots[0]}
 				steps := 1 + rng.Intn(2*len(tab.Cells)+2)
 				pp := 0.15 + rng.Float64()*0.3
 				for s := 0; s < steps; s++ {
-					cur := tab.Cells[path[len(path)-1]]
+					h := len(rows) - 1
+					if rng.Intn(3) == 0 {
+						h = rng.Intn(len(rows))
+					}
+					cur := tab.Cells[rows[h]]
 					x := rng.Float64()
 					switch {
-					case x < pp:
-						out = append(out, Step{K: "Prune", C: c})
-					case x < pp+0.2 && len(path) > 1:
-						out = append(out, Step{K: "Up", C: c})
-						path = path[:len(path)-1]
-					case len(cur.R) > 0:
-						j := rng.Intn(len(cur.R))
-						out = append(out, Step{K: "Ref", C: c, I: j})
-						path = append(path, cur.R[j])
-					case len(path) > 1:
-						out = append(out, Step{K: "Up", C: c})
-						path = path[:len(path)-1]
+					case x < pp || len(cur.R) == 0:
+						out = append(out, Step{K: "Prune", C: c, H: h})
+					case x < pp+0.15:
+						for j, r := range cur.R { // take all children first
+							out = append(out, Step{K: "Ref", C: c, H: h, NH: len(rows), I: j})
+							rows = append(rows, r)
+						}
 					default:
-						out = append(out, Step{K: "Prune", C: c})
+						j := rng.Intn(len(cur.R))
+						out = append(out, Step{K: "Ref", C: c, H: h, NH: len(rows), I: j})
+						rows = append(rows, cur.R[j])
 					}
 				}
 			}
-			return append(out, Step{K: "Create", C: c})
+			return append(out, Step{K: "Create", C: c, H: rng.Intn(len(rows))})
 		}
 		session := func(c int, empty bool) []Step { return sessionOn(tab, c, empty) }
 		var script []Step
@@ -942,7 +1032,7 @@ func Drive(w *ev.Writer, o Opts) {
 			}
 			script = append(script, a...)
 		}
-		v := &Vector{T: "walk", Vec: vec, Src: "rand", Cells: tab.Cells, Roots: tab.Roots, Script: script}
+		v := &Vector{T: "walk", Vec: vec, Src: "rand", Cells: tab.Cells, Roots: tab.Roots, Script: script, Preread: []string{"", "readall"}[i%2]}
 		if err := run(w, v); err != nil {
 			panic(err)
 		}
@@ -968,7 +1058,7 @@ func Drive(w *ev.Writer, o Opts) {
 				script2 = append(script2, sessionOn(st, c, c == 2 && rng.Intn(2) == 0)...)
 			}
 			vec++
-			v2 := &Vector{T: "walk", Vec: vec, Src: "rand:two-step", Orig: tab.Cells, SrcBoc: first[0], Script: script2}
+			v2 := &Vector{T: "walk", Vec: vec, Src: "rand:two-step", Orig: tab.Cells, SrcBoc: first[0], Script: script2, Preread: []string{"", "readall"}[(i/2)%2]}
 			if err := run(w, v2); err != nil {
 				panic(err)
 			}
